@@ -1,9 +1,9 @@
 import Sessions.Model
 import Std.Data.HashMap
-import Drv.Pw
-import Drv.Ids
-import Drv.Codec
-import Drv.Mx
+import Sessions.Drv.Pw
+import Sessions.Drv.Ids
+import Sessions.Drv.Codec
+import Sessions.Drv.Mx
 /-!
 # Driver: runs the Lean model on a script and prints the transcript the harness prints
 
